@@ -1,25 +1,38 @@
 /-
-  C06 — obligations about facts REGENERATED from the Go source on every run (Generated/C06.lean):
-  the skeleton model of Model/C06.lean puts every deposit inside its own recovered closure; these obligations check that
-  the source still does, that the RetryV1 error branch does not touch the nil message, and that parseDeposit guards
-  `Topics[1]`.
+  C06 — obligations about facts REGENERATED from the Go source on every run (Generated/C06.lean).
+  Each fact is `some …` when its anchor was located (by shape, not by names) and `none` when it moved out of the extractor's
+  reach (then the obligation is vacuous, bin/check prints T-TIE-UNAVAILABLE and the correspondence ops carry the property).
+  The skeleton model of Model/C06.lean puts every deposit inside its own recovered closure; a located fact must agree.
 -/
 import SygmaModel.Model.C06
 import SygmaModel.Generated.C06
 namespace Sygma.C06
 
-/-- in all five loops every `HandleDeposit` call sits in a closure that begins with `defer … recover()` and is called once
-    per deposit: no loop lies between the call and the closure, except Bitcoin's loop over the configured resources
-    inside the per-transaction closure (`btcTx` in the model) -/
-theorem gen_isolated : Generated.C06.isolated =
-    [("evm.ProcessDeposits", true, 0), ("evm.RetryV1", true, 0), ("substrate.ProcessDeposits", true, 0),
-     ("substrate.Retry", true, 0), ("btc.ProcessDeposits", true, 1)] := by decide
+/-- a located loop isolates every `HandleDeposit` call: its isolation unit (closure, or helper called from the loop) begins with
+    `defer … recover()`, is invoked once per item, and no loop lies between the call and the unit -/
+def Isolated (f : Option (Bool × Nat)) (innerLoops : Nat) : Prop := ∀ x, f = some x → x = (true, innerLoops)
 
-/-- RetryV1's error branch exists and does not mention the message that is nil there -/
-theorem gen_retryV1_err_branch :
-    Generated.C06.retryV1ErrBranchFound = true ∧ Generated.C06.retryV1ErrBranchUsesMsg = false := by decide
+instance (f : Option (Bool × Nat)) (k : Nat) : Decidable (Isolated f k) := by
+  unfold Isolated
+  cases f with
+  | none => exact isTrue (by intro x h; cases h)
+  | some y => exact decidable_of_iff (y = (true, k)) ⟨fun h x hx => by cases hx; exact h, fun h => h y rfl⟩
 
-/-- `parseDeposit` returns an error for logs with fewer than two topics before it reads `Topics[1]` -/
-theorem gen_topics_guard : Generated.C06.topicsGuard = some 2 := by decide
+theorem gen_isolated_evm_process : Isolated Generated.C06.isoEvmProcess 0 := by decide
+theorem gen_isolated_evm_retryV1 : Isolated Generated.C06.isoEvmRetryV1 0 := by decide
+theorem gen_isolated_sub_process : Isolated Generated.C06.isoSubProcess 0 := by decide
+theorem gen_isolated_sub_retry : Isolated Generated.C06.isoSubRetry 0 := by decide
+/-- Bitcoin: the unit is per transaction; the one inner loop is the loop over the configured resources (`btcTx` in the model) -/
+theorem gen_isolated_btc_process : Isolated Generated.C06.isoBtcProcess 1 := by decide
+
+/-- RetryV1's error branch after `HandleDeposit` does not touch the message that is nil there -/
+theorem gen_retryV1_err_branch : ∀ b, Generated.C06.retryV1ErrUsesMsg = some b → b = false := by decide
+
+/-- before `Topics[1]` is read, `parseDeposit` returns for every log with fewer than two topics -/
+theorem gen_topics_guard : ∀ n, Generated.C06.topicsGuard = some n → 2 ≤ n := by
+  intro n h
+  have : Generated.C06.topicsGuard.all (fun n => decide (2 ≤ n)) = true := by decide
+  rw [h] at this
+  simpa using this
 
 end Sygma.C06
